@@ -46,7 +46,7 @@ func parse(src []byte, filename string, start hcl.Pos) (*File, hcl.Diagnostics) 
 		// the first call above.
 		return nil, diags
 	}
-	writerTokens := writerTokens(nativeTokens)
+	writerTokens := writerTokens(nativeTokens, start.Byte)
 
 	from := inputTokens{
 		nativeTokens: nativeTokens,
@@ -487,12 +487,14 @@ func parseTraversalStep(nativeStep hcl.Traverser, from inputTokens) (before inpu
 // The resulting list contains the same number of tokens and uses the same
 // indices as the input, allowing the two sets of tokens to be correlated
 // by index.
-func writerTokens(nativeTokens hclsyntax.Tokens) Tokens {
+func writerTokens(nativeTokens hclsyntax.Tokens, startByte int) Tokens {
 	// Ultimately we want a slice of token _pointers_, but since we can
 	// predict how much memory we're going to devote to tokens we'll allocate
 	// it all as a single flat buffer and thus give the GC less work to do.
 	tokBuf := make([]Token, len(nativeTokens))
-	var lastByteOffset int
+	// The native tokens' byte offsets are relative to the caller's start
+	// position, so that is where the space before the first token begins.
+	lastByteOffset := startByte
 	for i, mainToken := range nativeTokens {
 		// Create a copy of the bytes so that we can mutate without
 		// corrupting the original token stream.
@@ -642,5 +644,5 @@ func partitionLineEndTokens(toks hclsyntax.Tokens) (afterComment, afterNewline i
 // function should be used with care.
 func lexConfig(src []byte) Tokens {
 	mainTokens, _ := hclsyntax.LexConfig(src, "", hcl.Pos{Byte: 0, Line: 1, Column: 1})
-	return writerTokens(mainTokens)
+	return writerTokens(mainTokens, 0)
 }
